@@ -31,6 +31,8 @@ struct state
     // a trailing `+sameref` token (this line only): calls with an in and an out parameter of the same type are made
     // with ONE variable bound to both (create_or_load_database(dir, v, created, v))
     bool sameref = false;
+    // the script variable of the track the most recent command went through (reopen observes that track first)
+    std::string last_track;
     bool alias = false;
     unsigned alias_ctr = 0;
     std::map<std::string, djinterop::crate> crates2;
